@@ -1,5 +1,6 @@
 import ApdVerif.Oracle.Exact
 import ApdVerif.Oracle.Roots
+import ApdVerif.Oracle.TransOps
 /-!
 # Per-operation specification oracles evaluated on the implementation's outputs
 (Quantize / RoundToIntegral / Ceil / Floor — C09; QuoInteger / Rem — C10)
@@ -115,6 +116,7 @@ def opOracle (op : String) (c : Ctx) (x y : Dec) (iarg : Int) (o : Out) : List (
           else [("C11", s!"perfect cube: expected exact root {r}E{k} without Inexact")])
        else []
      | none => [])
+  | "exp" | "ln" | "log10" | "pow" => transOracle op c x y o
   | _ => []
 
 end Apd.Oracle
